@@ -269,11 +269,12 @@ def plan_C09_pairs(tier, seed):
     B = BUNDLES
     decls = C.k1()
     decls += [d for d in C.k2() if d.name in (("k2_i8", "k2_u64", "k2_i8_mid") if not th else
-                                               tuple(x.name for x in C.k2()))]
-    decls += [d for d in C.k3() if d.name in ("k3_i8_lo", "k3_u8_hi", "k3_i64_lo") or th]
-    decls += [d for d in C.k4() if d.name in ("k4_dup", "k4_dup_h", "k4_swap_h") or th]
-    decls += [d for d in C.k9() if d.name in ("k9_i128", "k9_u128_gap") or th]
-    decls += C.k8(seed, 8 if th else 2)
+                                               ("k2_i8", "k2_u8", "k2_i16", "k2_u64", "k2_i64", "k2_isize", "k2_i8_mid", "k2_u8_two"))]
+    decls += [d for d in C.k3() if d.name in (("k3_i8_lo", "k3_u8_hi", "k3_i64_lo") if not th else
+                                               ("k3_i8_lo", "k3_u8_hi", "k3_i64_lo", "k3_i16_zero", "k3_u64_hi", "k3_i8_1lo", "k3_u16_mid", "k3_isize_hi"))]
+    decls += [d for d in C.k4() if d.name in ("k4_dup", "k4_dup_h", "k4_swap_h") or (th and d.name in ("k4_esc", "k4_pre_h"))]
+    decls += [d for d in C.k9() if d.name in ("k9_i128", "k9_u128_gap") or (th and d.name in ("k9_u128", "k9_i128_gap"))]
+    decls += C.k8(seed, 4 if th else 2)
     full_pairs = [("M", "T"), ("M", "A"), ("T", "A"), ("R", "A"), ("I", "M"), ("R", "T")]
     steer = [("S_as", "T"), ("S_asfs", "M"), ("S_asn", "M"), ("S_itfs", "M"), ("S_it", "M"),
              ("S_itr", "T"), ("X1", "X2"), ("FSa1", "T"), ("FSa1t", "M"), ("S_it", "I"), ("ITaf", "ITn")]
@@ -305,7 +306,7 @@ def plan_C18_pairs(tier, seed):
     for fid, members in C.k7(th):
         ref = members[0]
         for j, mbr in enumerate(members[1:]):
-            for bn in (["A", "M", "T"] if th else [["A", "T", "M"][j % 3]]):
+            for bn in (["A", "T"] if th else [["A", "T", "M"][j % 3]]):
                 if not B[bn].legal_for(ref):
                     continue
                 p = _pair(i, ref, B[bn], mbr, B[bn], "C18", th)
@@ -331,7 +332,7 @@ def plan_C18_oracle(tier, seed):
         m.add(E.h_content(m, "iter"))
         m.add(E.h_content(m, "range"))
         m.add(E.h_content(m, "names"))
-    return _mods(decls, ["A"] if not th else ["A", "T"], "C18", fill)
+    return _mods(decls, ["A"] if not th else ["A", "M"], "C18", fill)
 
 
 def plan_C10_split(tier, seed):
